@@ -86,6 +86,12 @@ def _own_sampler(env, W, tag, kind, order, n, sharing):
     elif base == "random":
         assert tuple(order) == ("x",)
         s = tp.samplers.RandomUniformSampler(W.interval, n_points=n)
+    elif base == "staticproduct":
+        # a product of INDIVIDUALLY static samplers (random first factor): x_static * t_static
+        assert set(order) == {"x", "t"}
+        xs = tp.samplers.RandomUniformSampler(W.interval, n_points=n).make_static()
+        ts = tp.samplers.DataSampler(K.fixed_points(env, "pts_t" + tag, ("t",), DIMS, 1)).make_static()
+        return xs * ts
     else:
         raise ValueError(kind)
     return s.make_static() if static else s
@@ -449,6 +455,8 @@ def cases(tier):
     for ctype in ("pinn", "mean", "hpm", "adaptive"):
         cs.append(repeat_case(ctype, "random_static", vars_=("x",)))
         cs.append(repeat_case(ctype, "grid_static", vars_=("x",)))
+    for ctype in ("pinn", "mean"):
+        cs.append(repeat_case(ctype, "staticproduct"))
     cs.append(repeat_data_case(2))
     if th:
         cs.append(repeat_data_case("inf"))
